@@ -38,6 +38,7 @@ def dispatch (line : String) : Verdict :=
   | "C07" :: "st" :: args => c06 ("st" :: args) r
   | "C07" :: args => c07 args r
   | "C12" :: args => c12 args r
+  | "C15" :: "dec" :: args => c16 ("dec" :: args) r
   | "C15" :: args => c15 args r
   | "C16" :: args => c16 args r
   | "C20" :: args => handVerdict "C20" args r
